@@ -39,8 +39,14 @@ fn main() {
             s.gen("e2-random", s.n(400_000, 12_000_000), || e2::case(e2::W_C08), |c, cx| e2::check(c, Prop::C08, cx));
             let max_len = if s.quick() { 6 } else { 7 };
             s.enumerate("e2-small-scope", e2::small_cases(max_len, &[1, 2]), |c, cx| e2::check(&c.to_case(), Prop::C08, cx));
+            // the async send / flush with finite non-zero timeouts on real runtimes (E2 only sees 0 and "never"): this
+            // property's oracle over the same workloads C09 uses
+            s.gen("e7-async-send-timeouts", s.n(1_200, 30_000), e7::async_case, |c, cx| e7::check_async(c, Prop::C08, cx));
             s.gen("e7-os-threads", s.n(3_000, 150_000), || e7::workload(3), |c, cx| e7::check(c, Prop::C08, cx));
         s.require("timeout:far-end-of-duration", 40);
+        // "a blocking send returns within its timeout" also when it is woken before the deadline and finds the queue
+        // full again (the same generator C09 uses for "hands it back when the timeout expires")
+        s.gen("e7-blocking-send-deadline", s.n(2, 40), e7::deadline_batch, |c, cx| e7::check_deadline(c, cx));
         s.gen("e7-blocking-contexts", s.n(720, 12_000), e7::blocking_case, |c, cx| e7::check_blocking(c, cx));
             // OTLP end-to-end clause of this property (real emit_otlp emitter against the scripted collector; harness/c12/src/e2e.rs)
             c12::e2e::register_c08(s);
